@@ -27,7 +27,7 @@ IE = 'outrank.algorithms.importance_estimator'
 
 def run(repo, chk, tier):
     histogram(repo, chk, 'C03.0')
-    summary_obligations(repo, chk, True, 'C03', {'badratio', 'badlog', 'badindex', 'badrange', 'badcount', 'badstore', 'baddisp', 'badinit'})
+    summary_obligations(repo, chk, True, 'C03', {'badratio', 'badlog', 'badindex', 'badrange', 'badcount', 'badstore', 'baddisp', 'badinit', 'badclamp'})
     loop_cursors(repo, chk, 'C03.6')
     sampling_guard(repo, chk, 'C03.7')
     self_pair_test(repo, chk, 'C03.5')
